@@ -8,7 +8,7 @@ from ..core import Result
 from .. import gen
 
 LEVEL = 'exploration'
-RULE = ("Window size k in 1..8 (thorough ..64) and float streams of length up to 4k+3 (so beyond k and beyond 2k by construction); "
+RULE = ("Window size k in 1..8 (thorough ..64; one case in forty uses a LARGE window of 1025..4100 slots read every ~100 updates during its fill phase) and float streams of length up to 4k+3 (so beyond k and beyond 2k by construction); "
         "(ints, floats, bools, NumPy float/signed/unsigned scalars in mixtures, or handed over in one reused 0-d array buffer); after every update - or, in part of the cases, only at SPARSE read positions - mean/var/std/get()/call are compared with NumPy statistics of values[-min(n,k):] within "
         "8*k*eps*max|v| (squared for var). Construction itself is part of the property: an exception in the constructor or in "
         "update is a violation. Non-trivial: n >= 2k+1 with pairwise distinct values; distinct by case digest.")
@@ -59,12 +59,19 @@ def run_case(case):
                 return Result(False, key=f'C11:window:{phase}',
                               detail=f'k={k} n={n}: {name}={g!r}, statistics of the last {min(n, k)} values give {want[name]!r}')
     nt = len(vals) >= 2 * k + 1 and len(set(vals)) == len(vals)
-    labels = ['beyond_2k' if len(vals) > 2 * k else ('beyond_k' if len(vals) > k else 'fill_only')]
+    labels = ['beyond_2k' if len(vals) > 2 * k else ('beyond_k' if len(vals) > k else 'fill_only')] + (['large_window'] if k > 1024 else [])
     return Result(True, nontrivial=nt, labels=labels)
 
 
 @st.composite
 def cases(draw, kmax):
+    if draw(st.integers(0, 39)) == 0:
+        # LARGE windows (beyond 1024, 2048, 4096 slots), read sparsely during the fill phase, around k and a little beyond
+        k = draw(st.sampled_from([1025, 1500, 2049, 3000, 4100]))
+        n = k + draw(st.integers(0, 40))
+        base = draw(st.integers(-1000, 1000))
+        vals = [float((base + 37 * i) % 2001 - 1000) / 8 for i in range(n)]
+        return {'k': k, 'values': vals, 'kinds': ['float'], 'reads': [0] * draw(st.sampled_from([96, 130, 211])) + [1]}
     k = draw(st.integers(1, kmax))
     n = draw(st.integers(0, 4 * k + 3))
     distinct = draw(st.booleans())
